@@ -202,6 +202,10 @@ Definition unchosen_penalty (td : json) : nat :=
 Definition assigned_penalty (ci : nat) (choices : list (nat * nat)) (td : json) : nat :=
   match find (fun ch : nat * nat => Nat.eqb (fst ch) ci) choices with Some ch => snd ch | None => unchosen_penalty td end.
 
+(* an ignored attendee is rated only if he has (valid) choices (fix after 2b07851: participants without choices are not rated) *)
+Definition rate_att (q : nat * list nat) (ci : nat) (choices : list (nat * nat)) (td : json) : nat * list nat :=
+  match choices with [] => q | _ => (fst q, (snd q ++ [assigned_penalty ci choices td])%list) end.
+
 (* courses in key order; keep (sort_key, course) for offered ones, remember skipped ids *)
 Fixpoint goc (track_id : Z) (ign_c : bool) (ffield ofield : option string) (l : list (string * json))
   : result (list (string * (rcourse * (option json * option json))) * list Z) :=
@@ -253,8 +257,8 @@ Fixpoint gor (part_id track_id : Z) (cmap : list (Z * option nat)) (ign_a : bool
              not rated, like the optimised ones) *)
           let q' := match pc_instr d with
                     | Some c' => if Nat.eqb c' ci then (match pc_choices d with [] => q | _ => (S (fst q), snd q) end)
-                                 else (fst q, (snd q ++ [assigned_penalty ci (pc_choices d) _td])%list)
-                    | None => (fst q, (snd q ++ [assigned_penalty ci (pc_choices d) _td])%list) end in
+                                 else rate_att q ci (pc_choices d) _td
+                    | None => rate_att q ci (pc_choices d) _td end in
           gor part_id track_id cmap ign_a _td t i courses' acc q' (S nign)
       | None =>
           match pc_choices d, pc_instr d with
